@@ -605,6 +605,14 @@ func (o *writeUDPOp) Do() {
 		n.FailedUDP = append(n.FailedUDP, &Emission{Seq: -1, Step: n.K.Step, At: n.K.Elapsed(), Proto: "udp", Src: from.String(), Dst: o.dst.String(), Data: o.data, G: o.g, Err: "econnrefused"})
 		return
 	}
+	if len(o.data) > 65507 {
+		// larger than a UDP datagram over IPv4 can be
+		o.err = &net.OpError{Op: "write", Net: "udp", Addr: o.dst, Err: syscall.EMSGSIZE}
+		n.Fired["udp-write-emsgsize"]++
+		n.event("udp-write-error", from.String(), o.dst.String(), 0, "emsgsize")
+		n.FailedUDP = append(n.FailedUDP, &Emission{Seq: -1, Step: n.K.Step, At: n.K.Elapsed(), Proto: "udp", Src: from.String(), Dst: o.dst.String(), Data: o.data, G: o.g, Err: "emsgsize"})
+		return
+	}
 	if pct(n.K, n.F.UDPWriteErrPct) {
 		o.err = &net.OpError{Op: "write", Net: "udp", Addr: o.dst, Err: syscall.ENOBUFS}
 		n.Fired["udp-write-error"]++
